@@ -35,7 +35,7 @@ func runC29(c *Ctx) {
 				continue
 			}
 			fl := NewFlow(c.P).After("virtual-params-in-env", storeParams).Edge("virtual-params-in-env", physical)
-			fl.MaxDepth = 0
+			fl.MaxDepth = 1 // the block is duplicated in both functions: a shared helper is a likely refactor
 			res := fl.Analyze(fn, emptyState())
 			c.noteFlow(fl)
 			// the environment leaves the function through a return or through the callback
